@@ -584,3 +584,6 @@ kani("models::quantizer_search_u8_full", ["C03", "C10", "C20"], kind="bounded", 
 kani("models::quantizer_search_u8_top", ["C03", "C10", "C20"], kind="bounded", bound="support 100..=255, step-shaped CDFs", timeout=3600, tier="thorough", fns=QF)
 kani("models::quantizer_search_i8_full", ["C03", "C10", "C20"], kind="bounded", bound="support -128..=127, step-shaped CDFs", timeout=3600, tier="thorough", fns=QF)
 kani("models::quantizer_search_i8_mid", ["C03", "C10", "C20"], kind="bounded", bound="support -10..=20, step-shaped CDFs", timeout=3600, tier="thorough", fns=QF)
+kani("models::entropy_is_finite_u8_p8", ["C18"], kind="bounded", bound="uniform models with 2..3 symbols, u8, P = 8 = Probability::BITS; CBMC's log2 model", timeout=1200,
+     fns=[M + "model.rs::IterableEntropyModel::entropy_base2"],
+     text="sanity contract only: entropy_base2 is finite and within [0, P] (the exact value is not decided: transcendental)")
